@@ -224,7 +224,195 @@ def run_asr(fields):
         sir.md5 = real
 
 
-DISPATCH = {"asr": run_asr, "pipe": run_pipe, "base": run_ip, "ip4": run_ip, "ip6": run_ip, "jenc": run_jun, "jdec": run_jun}
+def run_main(fields):
+    """["main"; argv joined by U+0001; config file text or "-"]: runs the REAL netconan.netconan.main with anonymize_files replaced by a
+    recorder; returns the recorded call with every argument resolved to its parameter name, or the exception / exit code"""
+    import inspect
+    import os
+    import tempfile
+    from netconan import netconan as nn
+    from netconan import anonymize_files as af
+
+    argv = [] if fields[1] == "" else fields[1].split("\x01")
+    rec = []
+
+    def recorder(*a, **k):
+        b = inspect.signature(af.anonymize_files).bind(*a, **k)
+        b.apply_defaults()
+        rec.append(dict(b.arguments))
+
+    real = nn.anonymize_files
+    nn.anonymize_files = recorder
+    tmp = None
+    old_err = sys.stderr
+    sys.stderr = io.StringIO()
+    try:
+        if fields[2] != "-":
+            tmp = tempfile.NamedTemporaryFile("w", suffix=".cfg", delete=False)
+            tmp.write(fields[2])
+            tmp.close()
+            argv = [x.replace("@CFG@", tmp.name) for x in argv]
+        try:
+            nn.main(argv)
+        except SystemExit as e:
+            return "EXIT:%s" % e.code
+        except Exception as e:  # noqa
+            return "RAISED:" + type(e).__name__
+        if not rec:
+            return "NOCALL"
+        r = rec[0]
+
+        def show(v):
+            if isinstance(v, (list, tuple)):
+                return "[" + ",".join(str(x) for x in v) + "]"
+            return repr(v) if v is None or isinstance(v, bool) else str(v)
+        return "CALL " + " ".join("%s=%s" % (k, show(r[k])) for k in sorted(r))
+    finally:
+        nn.anonymize_files = real
+        sys.stderr = old_err
+        if tmp:
+            os.unlink(tmp.name)
+
+
+def run_files(fields):
+    """["files"; mode; options-json; tree-json]: materialises the tree in a temp dir and runs the real entry point.
+    mode: "main" (argv built from options), "api" (anonymize_files), "file" (FileAnonymizer.anonymize_file per file), "io" (anonymize_io per file)
+    tree: list of [relpath, content-as-latin1-escaped-bytes or None for a directory, {"out_is_dir": bool}]
+    returns JSON: {"out": {relpath: text}, "inputs_unchanged": bool, "extra": [...], "errors": [...], "dump": text or None, "raised": ...}"""
+    import base64
+    import os
+    import shutil
+    import tempfile
+    from netconan import anonymize_files as af
+    from netconan import netconan as nn
+
+    mode, opts, tree = fields[1], json.loads(fields[2]), json.loads(fields[3])
+    root = tempfile.mkdtemp(prefix="nv_files_")
+    try:
+        ind, outd = os.path.join(root, "in"), os.path.join(root, opts.get("outname", "out"))
+        os.makedirs(ind)
+        if opts.get("precreate_out"):
+            os.makedirs(outd)
+        before = {}
+        for rel, content, extra in tree:
+            pth = os.path.join(ind, rel)
+            if content is None:
+                os.makedirs(pth, exist_ok=True)
+                continue
+            os.makedirs(os.path.dirname(pth), exist_ok=True)
+            data = base64.b64decode(content)
+            with open(pth, "wb") as f:
+                f.write(data)
+            before[rel] = data
+            if extra.get("out_is_dir"):
+                os.makedirs(os.path.join(outd, rel), exist_ok=True)
+        errors = []
+
+        class H(logging.Handler):
+            def emit(self, rec):
+                if rec.levelno >= logging.ERROR:
+                    errors.append(rec.getMessage())
+        logging.disable(logging.NOTSET)
+        h = H()
+        logging.getLogger().addHandler(h)
+        raised = None
+        dumpf = os.path.join(root, "dump.txt") if opts.get("dump") else None
+        kw = dict(anon_pwd=opts.get("pwd", False), anon_ip=opts.get("ip", False), salt=opts.get("salt"), sensitive_words=opts.get("words"),
+                  undo_ip_anon=opts.get("undo", False), as_numbers=opts.get("asnums"), reserved_words=opts.get("reserved"),
+                  preserve_prefixes=opts.get("prefixes"), preserve_networks=opts.get("networks"),
+                  preserve_suffix_v4=opts.get("b4"), preserve_suffix_v6=opts.get("b6"))
+        single = opts.get("single")
+        src = os.path.join(ind, single) if single else ind
+        dst = os.path.join(root, "single.out") if single else outd
+        try:
+            if mode == "main":
+                argv = ["-i", src, "-o", dst]
+                if kw["anon_pwd"]:
+                    argv.append("-p")
+                if kw["anon_ip"]:
+                    argv.append("-a")
+                if kw["undo_ip_anon"]:
+                    argv.append("-u")
+                if kw["salt"] is not None:
+                    argv += ["-s", kw["salt"]]
+                if kw["sensitive_words"] is not None:
+                    argv += ["-w", ",".join(kw["sensitive_words"])]
+                if kw["as_numbers"] is not None:
+                    argv += ["-n", ",".join(kw["as_numbers"])]
+                if kw["reserved_words"] is not None:
+                    argv += ["-r", ",".join(kw["reserved_words"])]
+                if kw["preserve_prefixes"] is not None:
+                    argv += ["--preserve-prefixes", ",".join(kw["preserve_prefixes"])]
+                if kw["preserve_networks"] is not None:
+                    argv += ["--preserve-addresses", ",".join(kw["preserve_networks"])]
+                if opts.get("private"):
+                    argv.append("--preserve-private-addresses")
+                if opts.get("hostbits") is not None:
+                    argv += ["--preserve-host-bits", str(opts["hostbits"])]
+                if dumpf:
+                    argv += ["-d", dumpf]
+                argv += opts.get("extra_argv", [])
+                old_err = sys.stderr
+                sys.stderr = io.StringIO()
+                try:
+                    nn.main(argv)
+                except SystemExit as e:
+                    raised = "EXIT:%s" % e.code
+                finally:
+                    sys.stderr = old_err
+            elif mode == "api":
+                af.anonymize_files(src, dst, dumpfile=dumpf, **kw)
+            else:
+                kw2 = dict(kw)
+                fa = af.FileAnonymizer(**kw2)
+                files = []
+                if single:
+                    files = [(src, dst)]
+                else:
+                    for r, dirs, fs in os.walk(ind):
+                        dirs.sort()
+                        for f in sorted(fs):
+                            if not f.startswith("."):
+                                rel = os.path.relpath(os.path.join(r, f), ind)
+                                files.append((os.path.join(ind, rel), os.path.join(outd, rel)))
+                for a, b in files:
+                    os.makedirs(os.path.dirname(b), exist_ok=True)
+                    try:
+                        if mode == "file":
+                            fa.anonymize_file(a, b)
+                        else:
+                            with open(a, "r") as fi:
+                                text = fi.read()
+                            so = io.StringIO()
+                            fa.anonymize_io(io.StringIO(text), so)
+                            with open(b, "w") as fo:
+                                fo.write(so.getvalue())
+                    except Exception as e:  # noqa
+                        errors.append("Failed %s: %s" % (a, type(e).__name__))
+        except Exception as e:  # noqa
+            raised = "RAISED:" + type(e).__name__
+        finally:
+            logging.getLogger().removeHandler(h)
+            logging.disable(logging.CRITICAL)
+        out = {}
+        base = dst
+        if single:
+            if os.path.isfile(dst):
+                out[single] = open(dst, "rb").read().decode("utf-8", "replace")
+        else:
+            for r, dirs, fs in os.walk(outd):
+                for f in fs:
+                    rel = os.path.relpath(os.path.join(r, f), outd)
+                    out[rel] = open(os.path.join(r, f), "rb").read().decode("utf-8", "replace")
+        unchanged = all(open(os.path.join(ind, rel), "rb").read() == data for rel, data in before.items())
+        listing = sorted(os.path.relpath(os.path.join(r, f), root) for r, d, fs in os.walk(root) for f in fs)
+        return json.dumps({"out": out, "inputs_unchanged": unchanged, "listing": listing, "errors": [e.replace(root, "<ROOT>") for e in errors],
+                           "dump": open(dumpf).read() if dumpf and os.path.exists(dumpf) else None, "raised": raised})
+    finally:
+        shutil.rmtree(root, ignore_errors=True)
+
+
+DISPATCH = {"main": run_main, "files": run_files, "asr": run_asr, "pipe": run_pipe, "base": run_ip, "ip4": run_ip, "ip6": run_ip, "jenc": run_jun, "jdec": run_jun}
 
 
 def main():
